@@ -225,6 +225,75 @@ def long_history_cases(rng, quick=True):
                "ops": [dict(o, n=k) for k, o in enumerate(ops)]}
 
 
+NAME_STEMS = ["tmux-client-xterm-kitty-471", "tmux-client-xterm-256color-4", "T1", "T", "xterm-kitty-w", "é-9", "7"]
+
+
+def key_collision_cases(rng, n: int):
+    """Upload records are keyed by the PAIR (id, terminal).  Terminal names as the library generates them end in a number (the tmux
+    client's pid, the X window id) and ids are numbers, so distinct pairs can agree in every flattened form of the pair: the names are
+    P, P+d, P+d+d (d a digit string) and the ids int(d+d+s), int(d+s), s — all with the same `name ‖ id` — and, the other way round,
+    `id ‖ name` for ids s, s+d and names d+Q, Q.  Two or three such records get uploads (with other images going to the same
+    terminals), then the upload table is cleaned up with the cut BETWEEN them, and every record is asked about with tight count
+    thresholds.  Judged like every C04 history (tables and answers vs the model, answers vs Spec.Retention)."""
+    S8 = [8, False]
+    for k in range(n):
+        stem = rng.choice(NAME_STEMS)
+        d = rng.choice(["1", "2", "7", "12", "10", "5"])
+        s_ = str(rng.randrange(1, 26))
+        m = rng.choice([2, 2, 3])
+        if k % 4 == 3:
+            # id first, then the name
+            q = rng.choice(["-client", "x", ".0"])
+            recs = [(int(s_ + d * j), d * (m - 1 - j) + q) for j in range(m)]
+        else:
+            recs = [(int(d * (m - 1 - j) + s_), stem + d * j) for j in range(m)]
+        rng.shuffle(recs)
+        ids = [i for i, _t in recs]
+        terms = [t for _i, t in recs]
+        fillers = rng.sample([i for i in range(30, 250) if i not in ids], rng.randrange(1, 5))
+        ops = []
+
+        def add(**o):
+            o.setdefault("dt", rng.choice([1, 1, 1_000_000]))
+            ops.append(o)
+
+        for j, i in enumerate(sorted(set(ids)) + fillers):
+            if i <= 255:
+                add(op="get", sp=S8, su=[i, i + 1], d=f"img{j}")
+            else:
+                add(op="set", id=i, d=f"img{j}")
+        # marks: the colliding records and the other images, on the colliding terminals
+        marks = list(recs) + [(f, rng.choice(terms)) for f in fillers]
+        if rng.random() < 0.5:
+            # oldest colliding record first, then the other images to ITS terminal, the other colliding record(s) last
+            marks = [recs[0]] + [(f, recs[0][1]) for f in fillers] + recs[1:]
+        else:
+            rng.shuffle(marks)
+        for i, t in marks:
+            add(op="mark", id=i, term=t, size=rng.choice([1, 1, 2, 1000]), time=None)
+        # newest first: positions of the colliding records; cut between the newest and the oldest of them
+        order = marks[::-1]
+        posn = sorted(order.index(r) for r in recs)
+        keep = rng.randrange(posn[0] + 1, posn[-1] + 1) if rng.random() < 0.8 else rng.randrange(0, len(marks) + 1)
+        add(op="cleanup_uploads", keep=keep)
+        asked = list(dict.fromkeys(marks))
+        for i, t in asked:
+            for mu in sorted({1, 2, len(fillers), len(fillers) + 1}):
+                add(op="needs", id=i, term=t, mu=mu, mb=2 * MIB20 + 9, mt=10**13, dt=0)
+            if rng.random() < 0.5:
+                add(op="upinfo", id=i, term=t, dt=0)
+        add(op="upinfos", id=ids[0], dt=0)
+        if rng.random() < 0.5:
+            # a second round on the cleaned table
+            for i, t in rng.sample(marks, min(3, len(marks))):
+                add(op="mark", id=i, term=t, size=1, time=None)
+            add(op="cleanup_uploads", keep=rng.choice([1, 2, 3]))
+            for i, t in asked:
+                add(op="needs", id=i, term=t, mu=rng.choice([1, 2, 3]), mb=2 * MIB20 + 9, mt=10**13, dt=0)
+        yield {"max_ids": 1024, "seed": rng.randrange(1 << 30), "start": dbutil.T0, "profile": "upload-key-collision",
+               "ops": [dict(o, n=j) for j, o in enumerate(ops)]}
+
+
 def check_case(ctx: Ctx, case: dict):
     if case.get("k") == "terminal-switch":
         # the "that terminal" clause through the high-level path (TupimageTerminal.upload, terminal re-detection)
@@ -254,6 +323,7 @@ def check_case(ctx: Ctx, case: dict):
 def cases(ctx: Ctx):
     rng = ctx.rng
     yield from structured_cases()
+    yield from key_collision_cases(rng, 24 if ctx.quick else 200)
     from . import termid
     yield from termid.cases(rng, 36 if ctx.quick else 300)
     yield from long_history_cases(rng, ctx.quick)
@@ -269,7 +339,12 @@ def run(ctx: Ctx):
                 "{0, 1us, 1s, 1h}; 1-4 terminals; clock advance per op in {0, 1us, ~1s, 1h, 1h+1us} (+ negative in K-only histories); "
                 "ids recycled through tiny subspaces; long histories (1275+ later uploads to one terminal, thresholds around 1024, the true count "
                 "and above); terminal-identity scenarios through the real upload() (WINDOWID switches, tmux clients behind a fake tmux, "
-                "re-upload thresholds 0..3 through keywords / config_overrides). distinct = canonical JSON; non-trivial = at least one needs_uploading after a mark")
+                "re-upload thresholds 0..3 through keywords / config_overrides; reupload_max_seconds_ago 1 / 60 / 3600 / default with clock advances "
+                "just below, just above and far above the limit (also > 1 day) between two requests of one image on one terminal; forced uploads, per call "
+                "and configured, right after a switch; tmux answering nothing / failing for all or some clients: refusals tolerated and counted); "
+                "upload-key collisions: terminal names that are digit-suffixed prefixes of one another with ids whose decimal forms complete each other, "
+                "uploads to all of them and an upload-table clean-up cutting between the colliding records. "
+                "distinct = canonical JSON; non-trivial = at least one needs_uploading after a mark")
     run_corpus(ctx, PROP, check_case)
     budget = ctx.budget_s * (0.72 if ctx.quick else 0.85)
     for c in cases(ctx):
